@@ -65,7 +65,7 @@ static void fsample_bytes(const Req &req, std::ostream &out) {
     if (refmode == "tableau") {
         ref = TableauSimulator<W>::reference_sample_circuit(c);
     } else if (refmode == "tree") {
-        auto tree = ReferenceSampleTree::from_circuit_reference_sample(c);
+        auto tree = ReferenceSampleTree::from_circuit_reference_sample(c.aliased_noiseless_circuit());
         std::vector<bool> bits;
         tree.decompress_into(bits);
         for (size_t k = 0; k < bits.size() && k < m; k++) ref[k] = bits[k];
@@ -94,7 +94,7 @@ static void refsample(const Req &req, std::ostream &out) {
     std::string s;
     for (size_t k = 0; k < m; k++) s += ref[k] ? '1' : '0';
     out << "REC " << s << "\n";
-    auto tree = ReferenceSampleTree::from_circuit_reference_sample(c);
+    auto tree = ReferenceSampleTree::from_circuit_reference_sample(c.aliased_noiseless_circuit());
     std::vector<bool> bits;
     tree.decompress_into(bits);
     std::string t;
